@@ -1,0 +1,23 @@
+//go:build verif
+
+package proxy
+
+import (
+	"net/http"
+
+	"reservoir/cache"
+)
+
+// Verification hooks (build tag "verif" only).
+
+// VerifCache exposes the proxy's cache through the cache package's hook interface.
+func (p *Proxy) VerifCache() cache.VerifHooks { return p.cache.(cache.VerifHooks) }
+
+// VerifDeleteKey removes the entry a request maps to, through the public cache API.
+func (p *Proxy) VerifDeleteKey(hex string) error { return p.cache.Delete(cache.CacheKey{Hex: hex}) }
+
+func VerifRemoveHopByHop(h http.Header) { removeHopByHopHeaders(h) }
+
+func VerifChangeRequestToTarget(req *http.Request, httpsDefault bool) error {
+	return changeRequestToTarget(req, httpsDefault)
+}
